@@ -36,5 +36,95 @@ Theorem C18_release :
 Proof. exact heap_release. Qed.
 
 
+(* ---- histories ---- *)
+From AV.Model Require Import Ops Interp.
+From AV.Proofs Require Import Ledger.
+(** EVERY HISTORY OF THE MACHINE (AV.Proofs.Ledger) - not only the fragment the list specification covers: all operations of the case language, any outcome (ok, panic, armed panic fuse at any call of user code).  [pres R m]: computation m relates the state before and after by R whatever its outcome.  [Rst c]: on ONE vector, the events appended replay (ledger_run) from its ledger entry before to its entry after, all requests valid, backend unchanged; a vector that is not heap-backed has the empty entry before and after.  [Rw c]: on a WORLD, the events replay (greplay: multiset semantics - a deallocation / reallocation must present the layout of a block that is live at that moment) from the live blocks of its vectors to the live blocks afterwards plus the blocks of vectors the script itself overwrote, in any context of other live blocks.  By induction over the script: from the empty world the whole allocator traffic of a history is valid and replays from NO live block to exactly the blocks the vectors of the final world own (plus what the script overwrote); allocations and deallocations balance accordingly. *)
+(** every operation on one vector keeps its ledger entry, whatever the outcome *)
+Theorem C18_every_vector_operation :
+  forall c : cfg,
+         (forall n : N, spres c (reserve c n)) /\
+         (forall n : N, spres c (reserve_exact c n)) /\
+         spres c (shrink_to_fit c) /\
+         (forall n : N, spres c (shrink_to c n)) /\
+         (forall s : vsrc, spres c (push_unchecked c s)) /\
+         (forall (i : N) (s : vsrc), spres c (insert_unchecked c i s)) /\
+         spres c (clear c) /\
+         spres c (drop_vec c) /\
+         (forall n : N, spres c (set_len c n)) /\
+         (forall (k : tkind) (i : N), spres c (temp_new c k i)) /\
+         (forall (k : bool) (h : temp), spres c (temp_consume c k h)) /\
+         (forall (k : bool) (h : temp), spres c (temp_drop c k h)) /\
+         (forall s e : N, spres c (drain_new c s e)) /\
+         (forall (k : bool) (d : drain), spres c (drain_drop c k d)) /\
+         (forall (k : bool) (d : drain) (cl : N) (its : list ritem), spres c (splice_drop c k d cl its)) /\
+         (forall (p : eptr) (bs : mem), spres c (write_ptr c p bs)) /\
+         (forall p : eptr, spres c (read_ptr c p)).
+Proof. exact vector_ops_ledger. Qed.
+
+(** a clone under construction starts from the empty entry; when the cloning panics everything it acquired has been returned *)
+Theorem C18_clone_is_new_or_gone :
+  forall (c : cfg) (src v : vec) (u : uw),
+         match clone_vec c src (v, u) with
+         | Ok _ s' => Rnew c (v, u) s'
+         | Panic _ s' => Rgone c (v, u) s'
+         | Fault _ => True
+         end.
+Proof. exact clone_vec_new. Qed.
+
+(** also when a destructor panicked *)
+Theorem C18_dropped_vector_owns_nothing :
+  forall (c : cfg) (s : st),
+         match drop_vec c s with
+         | Ok _ s' | Panic _ s' => ob c (fst s') = None
+         | Fault _ => True
+         end.
+Proof. exact drop_vec_none. Qed.
+
+(** every operation of the case language *)
+Theorem C18_every_script_step :
+  forall (c : cfg) (o : op), wpres c (exec c o).
+Proof. exact exec_ledger. Qed.
+
+Theorem C18_step_ledger :
+  forall (c : cfg) (fuse : option N) (o : op) (w : world),
+         Forall valid_request (step_events c fuse o w) /\
+         (exists lk : list (N * N),
+            forall L : list (N * N),
+            greplay (live_blocks c (wv w) ++ L) (step_events c fuse o w)
+              (live_blocks c (wv (sr_world (run_step c fuse o w))) ++ lk ++ L)).
+Proof. exact step_ledger. Qed.
+
+Theorem C18_history_ledger :
+  forall (c : cfg) (steps : list (option N * op)),
+         let
+         '(es, w') := run_steps c steps init_world in
+          Forall valid_request es /\ (exists lk : list (N * N), greplay [] es (live_blocks c (wv w') ++ lk)).
+Proof. exact history_ledger. Qed.
+
+(** what a replay implies for the counts: live before + allocations = live after + deallocations *)
+Theorem C18_replay_balance :
+  forall (l : list (N * N)) (es : list event) (l' : list (N * N)),
+         greplay l es l' ->
+         (length l + length (filter is_alloc es))%nat = (length l' + length (filter is_dealloc es))%nat.
+Proof. exact greplay_count. Qed.
+
+(** non-vacuity: growth, shrink to zero after a panicking destructor, a clone, an overwritten vector, drops *)
+Theorem C18_history_example :
+  filter alloc_event (fst (run_steps lx_cfg lx_steps init_world)) =
+         [EAlloc 3 1; ERealloc 3 1 6; ERealloc 6 1 12; EAlloc 9 1; EDealloc 12 1; EAlloc 27 1; 
+          EAlloc 3 1; EDealloc 9 1] /\
+         live_blocks lx_cfg (wv (snd (run_steps lx_cfg lx_steps init_world))) = [(3, 1)].
+Proof. exact lx_events. Qed.
+
+(* ---- end histories ---- *)
 Print Assumptions C18_resize_ledger.
 Print Assumptions C18_release.
+Print Assumptions C18_every_vector_operation.
+Print Assumptions C18_clone_is_new_or_gone.
+Print Assumptions C18_dropped_vector_owns_nothing.
+Print Assumptions C18_every_script_step.
+Print Assumptions C18_step_ledger.
+Print Assumptions C18_history_ledger.
+Print Assumptions C18_replay_balance.
+Print Assumptions C18_history_example.
